@@ -150,3 +150,94 @@ package syntax
 //@   ensures r == -1 || (0 <= r && r <= len(text) && BmAt(b, text, r))
 //@   ensures !b.rightToLeft ==> (r == -1 || index <= r) && forall p int :: index <= p && (r == -1 || p < r) ==> !BmAt(b, text, p)
 //@   ensures b.rightToLeft ==> (r == -1 || r <= index) && forall p int :: p <= index && (r == -1 || p > r) ==> !BmAt(b, text, p)
+
+// ---------------------------------------------------------------------------------------------
+// C19: Escape / Unescape (escape.go, parser.go)
+// ---------------------------------------------------------------------------------------------
+
+// The text escape() appends for one rune, as a function of the rune: n runes starting at out[at].
+//@ spec func IsMeta(r rune) bool = strings.ContainsRune(meta, r)
+//@ spec func Hex2At(b *bytes.Buffer, at int, v int) bool = b.$out[at] == HexDigitCh((v / 16) % 16) && b.$out[at+1] == HexDigitCh(v % 16)
+//@ spec func Hex4At(b *bytes.Buffer, at int, v int) bool = b.$out[at] == HexDigitCh((v / 4096) % 16) && b.$out[at+1] == HexDigitCh((v / 256) % 16) && b.$out[at+2] == HexDigitCh((v / 16) % 16) && b.$out[at+3] == HexDigitCh(v % 16)
+//@ spec func Mnemonic(r rune) rune = ite(r == 7, 'a', ite(r == 12, 'f', ite(r == 10, 'n', ite(r == 13, 'r', ite(r == 9, 't', ite(r == 11, 'v', 0))))))
+// n runes starting at b.$out[at] are the escape of r
+//@ spec func EscShape(b *bytes.Buffer, at int, n int, r rune, force bool) bool =
+//@     ite(unicode.IsPrint(r),
+//@         ite(IsMeta(r) || force, n == 2 && b.$out[at] == '\\' && b.$out[at+1] == r, n == 1 && b.$out[at] == r),
+//@     ite(Mnemonic(r) != 0, n == 2 && b.$out[at] == '\\' && b.$out[at+1] == Mnemonic(r),
+//@     ite(r < 256, n == 4 && b.$out[at] == '\\' && b.$out[at+1] == 'x' && Hex2At(b, at+2, r),
+//@     ite(r <= 65535, n == 6 && b.$out[at] == '\\' && b.$out[at+1] == 'u' && Hex4At(b, at+2, r),
+//@         n == 4 + HexLen(r) && b.$out[at] == '\\' && b.$out[at+1] == 'x' && b.$out[at+2] == '{' && b.$out[at+n-1] == '}' &&
+//@         forall k int :: 0 <= k && k < HexLen(r) ==> b.$out[at+3+k] == HexDigitCh(NibbleAt(r, HexLen(r) - 1 - k))))))
+
+//@ func escape(b *bytes.Buffer, r rune, force bool)
+//@   props C19
+//@   requires b != nil && 0 <= r && r <= 1114111 && b.$n >= 0
+//@   modifies b.$n, b.$out[*]
+//@   ensures[prefix] b.$n >= old(b.$n) && forall k int :: 0 <= k && k < old(b.$n) ==> b.$out[k] == old(b.$out[k])
+//@   ensures[shape]  EscShape(b, old(b.$n), b.$n - old(b.$n), r, force)
+//@   loop 0:
+//@     invariant len(s) <= i && i <= 4 && len(s) == HexLen(r) && 256 <= r && r <= 65535
+//@     invariant b.$n == old(b.$n) + 2 + (i - len(s)) && b.$out[old(b.$n)] == '\\' && b.$out[old(b.$n)+1] == 'u'
+//@     invariant forall k int :: 0 <= k && k < i - len(s) ==> b.$out[old(b.$n) + 2 + k] == '0'
+//@     invariant forall k int :: 0 <= k && k < old(b.$n) ==> b.$out[k] == old(b.$out[k])
+//@     decreases 4 - i
+
+// ---- the decoding side (parser.go): what each escape shape reads back as; cursor discipline (C10) ----
+
+//@ spec func CursorOK(p *parser) bool = p != nil && 0 <= p.currentPos && p.currentPos <= len(p.pattern)
+//@ spec func HexVal(ch rune) int = ite('0' <= ch && ch <= '9', ch - 48, ite('a' <= ch && ch <= 'f', ch - 87, ite('A' <= ch && ch <= 'F', ch - 55, -1)))
+
+//@ func hexDigit(ch rune) (d int)
+//@   props C19 C10
+//@   ensures d == HexVal(ch)
+
+// scanHex(c): exactly c hex digits, most significant first (c is 2 for \xHH and 4 for \uHHHH)
+//@ spec func AllHex(p *parser, at int, c int) bool = at + c <= len(p.pattern) && forall k int :: 0 <= k && k < c ==> HexVal(p.pattern[at+k]) >= 0
+//@ func (p *parser) scanHex(c int) (r rune, err error)
+//@   props C19 C10
+//@   requires CursorOK(p) && (c == 2 || c == 4)
+//@   modifies p.currentPos
+//@   ensures[cursor] CursorOK(p) && old(p.currentPos) <= p.currentPos && p.currentPos <= old(p.currentPos) + c
+//@   ensures[ok]     (err == nil) == AllHex(p, old(p.currentPos), c)
+//@   ensures[value2] err == nil && c == 2 ==> p.currentPos == old(p.currentPos) + 2 && r == 16*HexVal(p.pattern[old(p.currentPos)]) + HexVal(p.pattern[old(p.currentPos)+1])
+//@   ensures[value4] err == nil && c == 4 ==> p.currentPos == old(p.currentPos) + 4 &&
+//@              r == 4096*HexVal(p.pattern[old(p.currentPos)]) + 256*HexVal(p.pattern[old(p.currentPos)+1]) + 16*HexVal(p.pattern[old(p.currentPos)+2]) + HexVal(p.pattern[old(p.currentPos)+3])
+//@   loop 0:
+//@     invariant 0 <= c && c <= old(c) && (old(c) == 2 || old(c) == 4) && old(p.currentPos) + old(c) <= len(p.pattern) && p.currentPos == old(p.currentPos) + (old(c) - c) && p.pattern == old(p.pattern)
+//@     invariant forall k int :: 0 <= k && k < old(c) - c ==> HexVal(p.pattern[old(p.currentPos)+k]) >= 0
+//@     invariant old(c) - c == 0 ==> i == 0
+//@     invariant old(c) - c == 1 ==> i == HexVal(p.pattern[old(p.currentPos)])
+//@     invariant old(c) - c == 2 ==> i == 16*HexVal(p.pattern[old(p.currentPos)]) + HexVal(p.pattern[old(p.currentPos)+1])
+//@     invariant old(c) - c == 3 ==> i == 256*HexVal(p.pattern[old(p.currentPos)]) + 16*HexVal(p.pattern[old(p.currentPos)+1]) + HexVal(p.pattern[old(p.currentPos)+2])
+//@     invariant old(c) - c == 4 ==> i == 4096*HexVal(p.pattern[old(p.currentPos)]) + 256*HexVal(p.pattern[old(p.currentPos)+1]) + 16*HexVal(p.pattern[old(p.currentPos)+2]) + HexVal(p.pattern[old(p.currentPos)+3])
+//@     decreases c
+
+//@ func (p *parser) scanControl() (r rune, err error)
+//@   props C10
+//@   requires CursorOK(p)
+//@   modifies p.currentPos
+//@   ensures CursorOK(p) && old(p.currentPos) <= p.currentPos && p.currentPos <= old(p.currentPos) + 1
+
+//@ func (p *parser) scanOctal() (r rune)
+//@   props C10
+//@   requires CursorOK(p) && p.currentPos < len(p.pattern)
+//@   modifies p.currentPos
+//@   ensures CursorOK(p) && old(p.currentPos) <= p.currentPos && p.currentPos <= old(p.currentPos) + 3
+//@   loop 0:
+//@     invariant CursorOK(p) && 0 <= c && c <= min(3, len(p.pattern) - old(p.currentPos)) && p.currentPos == old(p.currentPos) + (min(3, len(p.pattern) - old(p.currentPos)) - c) && p.pattern == old(p.pattern)
+//@     invariant 0 <= i && c <= len(p.pattern) - p.currentPos
+//@     decreases c
+
+//@ func (p *parser) scanHexUntilBrace() (r rune, err error)
+//@   props C19 C10
+//@   requires CursorOK(p)
+//@   modifies p.currentPos
+//@   ensures[cursor] CursorOK(p) && old(p.currentPos) <= p.currentPos
+//@   ensures[range]  err == nil ==> 0 <= r && r <= 1114111 && p.currentPos > old(p.currentPos) + 1 && p.pattern[p.currentPos-1] == '}'
+//@   ensures[digits] err == nil ==> forall k int :: old(p.currentPos) <= k && k < p.currentPos - 1 ==> HexVal(p.pattern[k]) >= 0
+//@   loop 0:
+//@     invariant CursorOK(p) && old(p.currentPos) <= p.currentPos && 0 <= i && i <= 1114111 && p.pattern == old(p.pattern)
+//@     invariant hasContent == (p.currentPos > old(p.currentPos))
+//@     invariant forall k int :: old(p.currentPos) <= k && k < p.currentPos ==> HexVal(p.pattern[k]) >= 0
+//@     decreases len(p.pattern) - p.currentPos
